@@ -43,5 +43,11 @@ class StreamNode(ConfigList):
             from .dict import ConfigDict
             self.builder.stages.append(ConfigDict({}, **self._get_child_kwargs()))
         self.builder.flatten()
-        self.append(self.builder.stages[0])
-        return self.builder.stages[0].ayns.on_premerge(path, into)
+        merged = self.builder.stages[0]
+        if self._priority is not None:
+            # a priority given to the include applies to the merged content as a whole, the priorities
+            # written in the included documents have decided among them by now
+            merged._priority = self._priority
+            merged._propagate_priority()
+        self.append(merged)
+        return merged.ayns.on_premerge(path, into)
